@@ -373,6 +373,30 @@ def r15_5(run):
                f"{len(reads)} live read(s)" if ok and mods_ok else "no live read of the switch in a function whose behaviour must depend on it")
 
 
+def r15_6(run):
+    """the constants: what each scope sets on entry, what the process-wide switches assign"""
+    want = {"mygrad._utils.graph_tracking._NoAutoDiff": False, "mygrad._utils.lock_management._NoMemGuard": False,
+            "mygrad._utils.lock_management._WithMemGuard": True}
+    for q, v in want.items():
+        c = run.project.cls(q)
+        a = c.lookup_attr("_enter_set_value")
+        ok = a is not None and isinstance(a[1], ast.Constant) and a[1].value is v
+        run.ob("R15.6", loc(c.module, c.node), q[7:], f"_enter_set_value is {v}", ok, "class constant" if ok else "the scope sets the opposite / no value on entry")
+    for fn, v in (("turn_memory_guarding_off", False), ("turn_memory_guarding_on", True)):
+        f = run.project.func(f"mygrad._utils.lock_management.{fn}")
+        st = [s for s in own_nodes(f.node) if isinstance(s, ast.Assign) and assigned_name(s) == "MEM_GUARD"]
+        glob = any(isinstance(g, ast.Global) and "MEM_GUARD" in g.names for g in own_nodes(f.node))
+        ok = glob and len(st) == 1 and isinstance(st[0].value, ast.Constant) and st[0].value.value is v
+        run.ob("R15.6", loc(f, f.node), f.short, f"{fn} assigns the process-wide default {v}", ok, f"global MEM_GUARD; MEM_GUARD = {v}" if ok else "wrong / local assignment")
+    # the module-level singletons are instances of the right classes
+    for modn, name, cls in (("mygrad._utils.graph_tracking", "no_autodiff", "_NoAutoDiff"), ("mygrad._utils.lock_management", "mem_guard_off", "_NoMemGuard"),
+                            ("mygrad._utils.lock_management", "mem_guard_on", "_WithMemGuard")):
+        b = run.project.module(modn).symbols.get(name)
+        ok = b is not None and b.value is not None and norm(b.value) == f"{cls}()"
+        run.ob("R15.6", loc(run.project.module(modn), b.node) if b is not None and b.node is not None else modn, modn[7:], f"{name} = {cls}()", ok,
+               "singleton of the matching class" if ok else "public scope object bound to the wrong class")
+
+
 def check(run):
     run.rule("R15.1", "ContextTracker bracket: save-before-set, restore key == save key (term over _depth), depth returns, __exit__ never truthy, "
              "setters write the module switch", floor=10)
@@ -380,9 +404,11 @@ def check(run):
     run.rule("R15.3", "TRACK_GRAPH / MEM_GUARD are written only by their state setters, turn_memory_guarding_* and module initialisation", floor=6)
     run.rule("R15.4", "with TRACK_GRAPH=False: _op writes no input state, locks nothing, result has no creator/base; _in_place_op writes into self.data; "
              "backward returns at once; shape setter is a plain store", floor=10)
+    run.rule("R15.6", "entry values of the three scopes, the process-wide setters and the public singletons", floor=8)
     run.rule("R15.5", "behaviour-deciding conditions read the switch live; stale `from ... import` sites only gate caching", floor=6)
     r15_1(run)
     r15_2(run)
     r15_3(run)
     r15_4(run)
     r15_5(run)
+    r15_6(run)
